@@ -1,8 +1,11 @@
+import PB.Gen.Log
 /-
 Model of /repo/log (logging.go, input.go, output.go, trace.go): the producer/writer protocol of the
 logger, written branch by branch from the Go source.
 
-* `Line`, `Line.equal`            — `logLine` (observable fields) and `logLine.Equal`
+* `Line`, `Line.equal`            — `logLine` (observable fields) and `logLine.Equal`; the merge decision
+                                    itself is `PB.Gen.Log.lineEqual`, regenerated from the switch in
+                                    logging.go on every run (PBProofs/C20 states what it must be)
 * `Levels`, `fastcheck`, `enabled` — `fastcheck()` and the level filter at the top of `log()`
 * `submitLine`                    — `ContextTracer.Submit`: last collected line becomes the main line
 * `wstep`                         — the writer goroutine (`writer()` + `finalizeWriting()`), one event per
@@ -17,43 +20,44 @@ namespace PB.Log
 
 /-! ## Lines -/
 
-/-- A collected tracer entry (`ContextTracer.logs` element): message, level, call site. -/
+/-- A collected tracer entry (`ContextTracer.logs` element): message, level, call site (file, line). -/
 structure Entry where
   msg : Nat
   lvl : Nat
-  site : Nat
+  file : Nat
+  line : Nat
   deriving DecidableEq, Repr, Inhabited
 
-/-- The observable content of a `logLine`: message, severity, call site (file+line), and for lines
-    submitted by a context tracer the collected entries (`tracer != nil`). The timestamp is not
-    compared by `Equal` and not modelled. -/
+/-- The observable content of a `logLine`: message, severity, call site (`file`, `line` — two fields, as
+    in the struct), and for lines submitted by a context tracer the collected entries (`tracer != nil`).
+    The timestamp is not compared by `Equal` and not modelled. -/
 structure Line where
   msg : Nat
   lvl : Nat
-  site : Nat
+  file : Nat
+  line : Nat
   trace : Option (List Entry)
   deriving DecidableEq, Repr, Inhabited
 
-/-- `logLine.Equal`, case by case as in logging.go. -/
-def Line.equal (ll ol : Line) : Bool :=
-  if ll.msg != ol.msg then false
-  else if ll.trace.isSome || ol.trace.isSome then false
-  else if ll.site != ol.site then false
-  else if ll.lvl != ol.lvl then false
-  else true
+/-- What `Equal` can see of a line (`tracer != nil` ⇔ the line was submitted by a context tracer). -/
+def Line.key (l : Line) : PB.Gen.Log.LineKey :=
+  { msg := l.msg, tracer := l.trace.isSome, file := l.file, line := l.line, level := l.lvl }
+
+/-- `ll.Equal(ol)`: the switch of logging.go as regenerated from the source (`PB.Gen.Log.lineEqual`). -/
+def Line.equal (ll ol : Line) : Bool := PB.Gen.Log.lineEqual ll.key ol.key
 
 /-- `ContextTracer.Submit`: nothing for an empty tracer; otherwise the last collected entry is the main
     line and the remaining entries stay attached to it. -/
 def submitLine (logs : List Entry) : Option Line :=
   match logs.getLast? with
   | none => none
-  | some m => some { msg := m.msg, lvl := m.lvl, site := m.site, trace := some logs.dropLast }
+  | some m => some { msg := m.msg, lvl := m.lvl, file := m.file, line := m.line, trace := some logs.dropLast }
 
 /-- All entries a submitted line carries, in collection order (attached entries, then the main line). -/
 def Line.entries (l : Line) : List Entry :=
   match l.trace with
-  | none => [{ msg := l.msg, lvl := l.lvl, site := l.site }]
-  | some es => es ++ [{ msg := l.msg, lvl := l.lvl, site := l.site }]
+  | none => [{ msg := l.msg, lvl := l.lvl, file := l.file, line := l.line }]
+  | some es => es ++ [{ msg := l.msg, lvl := l.lvl, file := l.file, line := l.line }]
 
 /-! ## Levels -/
 
@@ -92,6 +96,43 @@ def enabled (c : Levels) (pkg : Option Nat) (lvl : Nat) : Bool :=
     active and the package has one, the global level otherwise. -/
 def threshold (c : Levels) (p : Nat) : Nat :=
   if c.active then (lookupPkg c.pkgs p).getD c.glob else c.glob
+
+/-! ## The levels in force when the logger starts: `-log` / `-plog` flags, `ParseLevel`, `Severity.Name` -/
+
+/-- The switch of `ParseLevel` on the (already lower-cased) name; 0 for any other name. -/
+def lookupLevel (t : String) : Nat := (PB.Gen.Log.levelNames.lookup t).getD 0
+
+/-- `ParseLevel(name)` = that switch on `strings.ToLower(name)`. -/
+def parseLevel (s : String) : Nat := lookupLevel s.toLower
+
+/-- `Severity(n).Name()`. -/
+def severityName (n : Nat) : String :=
+  match PB.Gen.Log.severities.find? (·.2 == n) with
+  | some c => (PB.Gen.Log.severityNames.lookup c.1).getD PB.Gen.Log.severityNameDefault
+  | none => PB.Gen.Log.severityNameDefault
+
+/-- `newPkgLevels[k] = v` (a Go map: one entry per key). -/
+def setPkg {κ : Type} [BEq κ] (m : List (κ × Nat)) (k : κ) (v : Nat) : List (κ × Nat) :=
+  (k, v) :: m.filter (fun x => !(x.1 == k))
+
+/-- The loop of `Start()` over the pairs of `-plog` (each pair already split at "="): a pair that is not
+    `name=level` with a known level name ends the loop ("ignoring"); what was read before it is kept, what
+    follows it is not read. -/
+def parsePairs : List (List String) → List (String × Nat) → List (String × Nat)
+  | [], acc => acc
+  | [k, v] :: rest, acc => if parseLevel v = 0 then acc else parsePairs rest (setPkg acc k (parseLevel v))
+  | _ :: _, acc => acc
+
+/-- `Start()`: the levels in force afterwards, given the levels set before (`SetLogLevel`/`SetPkgLevels`
+    calls made before Start) and the two flags. An unknown `-log` name falls back to info; a non-empty
+    `-plog` REPLACES the package levels and activates them (also when nothing of it could be read).
+    `pkgId`: the harness' numbering of package names. -/
+def startLevels (pkgId : String → Nat) (pre : Levels) (logFlag plogFlag : String) : Levels :=
+  let g := if logFlag = "" then pre.glob
+           else if parseLevel logFlag = 0 then PB.Gen.Log.infoLevel else parseLevel logFlag
+  if plogFlag = "" then { pre with glob := g }
+  else { glob := g, active := true,
+         pkgs := (parsePairs ((plogFlag.splitOn ",").map (·.splitOn "=")) []).map fun kv => (pkgId kv.1, kv.2) }
 
 /-! ## Adapter output -/
 
@@ -498,21 +539,69 @@ def Item.formOk (e : Item) (g : Got) : Bool :=
   | .tracer => g.entries == some e.entries
   | .any => true
 
-/-- The leading lines of `got` that belong to `item`. -/
-def takeItem (item : Nat) : List Got → List Got
-  | [] => []
-  | g :: gs => if g.item = item then g :: takeItem item gs else []
+/-- Can this output line belong to the block of item `e`: it carries its item id AND has the form it
+    prescribes. A tracer submission is therefore never taken for a repetition of a plain line or of a
+    submission that collected other lines. -/
+def Item.matches (e : Item) (g : Got) : Bool := g.item == e.item && e.formOk g
 
-/-- Walk one goroutine's expected items (ascending) along its part of the expanded output. -/
-def checkProd (gid : Nat) : List Item → List Got → Verdict
+/-- The leading lines of `got` that can form the block of item `e`. -/
+def takeBlock (e : Item) : List Got → List Got
+  | [] => []
+  | g :: gs => if e.matches g then g :: takeBlock e gs else []
+
+/-- Does the output continue with a line of this item (in whatever form)? -/
+def nextIs (item : Nat) : List Got → Bool
+  | [] => false
+  | g :: _ => g.item == item
+
+/-- Greedy walk along one goroutine's expected items (program order): every item takes as many lines as it
+    can. Its verdict names the first item at which this walk fails. -/
+def greedyProd (gid : Nat) : List Item → List Got → Verdict
   | [], [] => .pass
   | [], g :: _ => .fail "unexpected" gid g.item
   | e :: es, got =>
-    let blk := takeItem e.item got
-    if ¬ blk.all e.formOk then .fail "trace" gid e.item
-    else if blk.length < e.lo then .fail "lost" gid e.item
+    let blk := takeBlock e got
+    if blk.length < e.lo then
+      .fail (if nextIs e.item (got.drop blk.length) then "trace" else "lost") gid e.item
     else if blk.length > e.hi then .fail (if e.hi = 0 then "filtered" else "duplicated") gid e.item
-    else checkProd gid es (got.drop blk.length)
+    else greedyProd gid es (got.drop blk.length)
+
+/-! The exact decision: is there ANY way to cut the output into consecutive blocks, one per item, block `i`
+    made of `lo … hi` lines of item `i`? (The greedy walk is not exact when an optional or disabled item
+    stands between two items of identical lines: `A B A` with `B` absent legitimately arrives as `A A`.)
+    The frontier holds the remainders (with their lengths) that the items so far can leave. -/
+
+abbrev Rem := Nat × List Got
+
+/-- The remainders after taking a block of item `e` off the front of `got`; `k` lines taken so far,
+    `n` = length of `got`. -/
+def splits (e : Item) : Nat → Nat → List Got → List Rem
+  | k, n, [] => if e.lo ≤ k then [(n, [])] else []
+  | k, n, g :: gs =>
+    (if e.lo ≤ k then [(n, g :: gs)] else []) ++
+      (if k < e.hi ∧ e.matches g = true then splits e (k + 1) (n - 1) gs else [])
+
+def addRem (x : Rem) (fr : List Rem) : List Rem := if fr.any (·.1 == x.1) then fr else x :: fr
+
+/-- One representative per remainder length. -/
+def dedupRem (fr : List Rem) : List Rem := fr.foldr addRem []
+
+def splitsAll (e : Item) : List Rem → List Rem
+  | [] => []
+  | x :: xs => splits e 0 x.1 x.2 ++ splitsAll e xs
+
+def conformsFrom : List Item → List Rem → Bool
+  | [], fr => fr.any (·.2.isEmpty)
+  | e :: es, fr => conformsFrom es (dedupRem (splitsAll e fr))
+
+def conformsB (es : List Item) (got : List Got) : Bool := conformsFrom es [(got.length, got)]
+
+/-- One goroutine's part of the expanded output against its items: accepted iff it can be cut into
+    conforming blocks; otherwise the verdict of the greedy walk says where. -/
+def checkProd (gid : Nat) (es : List Item) (got : List Got) : Verdict :=
+  match greedyProd gid es got with
+  | .pass => .pass
+  | v => if conformsB es got then .pass else v
 
 /-- All goroutines `0 … np-1`, in order; first failure wins. -/
 def checkProds (outs : List OutW) (exps : Nat → List Item) : Nat → Nat → Verdict
@@ -526,12 +615,41 @@ def checkProds (outs : List OutW) (exps : Nat → List Item) : Nat → Nat → V
     the entries it collected. -/
 def OutW.mergedTracer (o : OutW) : Bool := o.entries.isSome && o.dups > 0
 
+/-! Every tracer submission is accounted for on its own: the submissions that MUST arrive (stable
+    configuration, completed before Shutdown was requested) are, in program order and with exactly their
+    collected entries, a subsequence of the tracer lines the adapter received from that goroutine. -/
+
+def Item.mustTracer (e : Item) : List Got :=
+  if e.kind = .tracer then List.replicate e.lo ⟨e.item, some e.entries⟩ else []
+
+def tracerMust : List Item → List Got
+  | [] => []
+  | e :: es => e.mustTracer ++ tracerMust es
+
+def tracerGot (gid : Nat) (outs : List OutW) : List Got := (expandOut gid outs).filter (·.entries.isSome)
+
+/-- Greedy subsequence matching: the first required line that does not arrive. -/
+def firstMissing : List Got → List Got → Option Got
+  | [], _ => none
+  | m :: _, [] => some m
+  | m :: ms, g :: gs => if m = g then firstMissing ms gs else firstMissing (m :: ms) gs
+
+def checkTracers (outs : List OutW) (exps : Nat → List Item) : Nat → Nat → Verdict
+  | _, 0 => .pass
+  | gid, n + 1 =>
+    match firstMissing (tracerMust (exps gid)) (tracerGot gid outs) with
+    | some m => .fail "tracer-lost" gid m.item
+    | none => checkTracers outs exps (gid + 1) n
+
 def checkRun (np : Nat) (exps : Nat → List Item) (outs : List OutW) : Verdict :=
   match outs.find? (fun o => o.gid ≥ np) with
   | some o => .fail "unexpected" o.gid o.item
   | none =>
     match outs.find? OutW.mergedTracer with
     | some o => .fail "trace" o.gid o.item
-    | none => checkProds outs exps 0 np
+    | none =>
+      match checkTracers outs exps 0 np with
+      | .pass => checkProds outs exps 0 np
+      | v => v
 
 end PB.Log
